@@ -144,6 +144,18 @@ pub fn send(c: Cid, m: RefMessage) -> Action {
 pub fn v2_payload(tag: u8) -> Vec<u8> {
     vec![43, 1, 3, tag, 0]
 }
+/// The same value in the legacy encoding: Vec1[U8(tag)].
+pub fn v1_payload(tag: u8) -> Vec<u8> {
+    vec![17, 1, 3, tag]
+}
+/// A container payload in the newest encoding the sender (negotiated 1.`minor`) may use.
+pub fn payload_for(minor: u32, tag: u8) -> Vec<u8> {
+    if minor >= 20 {
+        v2_payload(tag)
+    } else {
+        v1_payload(tag)
+    }
+}
 /// Item payload: U8(tag).
 pub fn item(tag: u8) -> Vec<u8> {
     vec![3, tag]
@@ -276,4 +288,479 @@ pub fn chan_end_owner(e: MEnd) -> Option<Cid> {
 
 pub fn nothing(_r: &mut Runner) -> Result<(), Viol> {
     Ok(())
+}
+
+// ---------------------------------------------------------------------------------------------
+// C04 — event delivery and 0<->1 notifications
+
+pub struct EventsScenario {
+    /// versions of owner O, subscribers A and B, stranger S
+    pub minors: [u32; 4],
+    pub depth: usize,
+}
+
+impl EventsScenario {
+    fn create_svc(&self, serial: u32, obj: U) -> RefMessage {
+        if self.minors[0] >= 17 {
+            create_service2(serial, obj, svc_uuid(1), 1, Some(true))
+        } else {
+            create_service(serial, obj, svc_uuid(1), 1)
+        }
+    }
+}
+
+impl Scenario for EventsScenario {
+    fn name(&self) -> String {
+        "events".into()
+    }
+    fn params(&self) -> serde_json::Value {
+        json!({"versions_owner_subA_subB_stranger": self.minors, "depth": self.depth, "event_ids": [1, 2, 3]})
+    }
+    fn prelude(&self) -> Vec<Action> {
+        let mut v: Vec<Action> = self.minors.iter().map(|m| connect(*m)).collect();
+        v.push(send(0, create_object(1, obj_uuid(1))));
+        v.push(send(0, self.create_svc(2, sym::cid(IdKind::Obj, 0))));
+        v
+    }
+    fn max_depth(&self) -> usize {
+        self.depth
+    }
+    fn actions(&self, m: &Model, stale: &Stale, _depth: usize) -> Vec<(Action, bool)> {
+        let mut out = Vec::new();
+        let live_svcs: Vec<U> = m.svcs.keys().copied().collect();
+        let mut svcs = live_svcs.clone();
+        if let Some(s) = stale.svc {
+            svcs.push(s);
+        }
+        for c in [1usize, 2] {
+            if !m.is_live(c) {
+                continue;
+            }
+            let minor = m.minor(c);
+            for s in &svcs {
+                for ev in [1u32, 2] {
+                    out.push((send(c, subscribe_event(Some(10 + ev), *s, ev)), true));
+                    out.push((send(c, unsubscribe_event(*s, ev)), true));
+                }
+                if minor >= 18 {
+                    out.push((send(c, subscribe_all_events(Some(20), *s)), true));
+                    out.push((send(c, unsubscribe_all_events(Some(21), *s)), true));
+                    out.push((send(c, unsubscribe_all_events(None, *s)), true));
+                    out.push((send(c, subscribe_service(22, *s)), true));
+                    out.push((send(c, unsubscribe_service(*s)), true));
+                }
+            }
+            // emitting as a non-owner is dropped
+            for s in &live_svcs {
+                out.push((send(c, emit_event(*s, 1, payload_for(minor, 9))), false));
+            }
+        }
+        // a subscribe request without serial is a protocol violation
+        if m.is_live(1) {
+            for s in &live_svcs {
+                out.push((send(1, subscribe_event(None, *s, 1)), true));
+            }
+        }
+        if m.is_live(0) {
+            for s in &live_svcs {
+                for ev in [1u32, 2, 3] {
+                    out.push((send(0, emit_event(*s, ev, payload_for(m.minor(0), ev as u8))), false));
+                }
+                out.push((send(0, destroy_service(30, *s)), true));
+            }
+            for o in m.objs.values() {
+                out.push((send(0, destroy_object(31, o.cookie)), true));
+                if o.svcs.is_empty() {
+                    out.push((send(0, self.create_svc(32, o.cookie)), true));
+                }
+            }
+            if m.objs.is_empty() {
+                out.push((send(0, create_object(33, obj_uuid(1))), true));
+            }
+        }
+        if m.is_live(3) {
+            for s in &live_svcs {
+                out.push((send(3, emit_event(*s, 1, payload_for(m.minor(3), 8))), false));
+            }
+        }
+        for c in 0..3 {
+            for a in disconnects(m, c, false) {
+                out.push((a, true));
+            }
+        }
+        out
+    }
+}
+
+// ---------------------------------------------------------------------------------------------
+// C02 — calls
+
+pub struct CallsScenario {
+    /// versions of owner O, callers A and B, stranger S
+    pub minors: [u32; 4],
+    pub depth: usize,
+}
+
+impl Scenario for CallsScenario {
+    fn name(&self) -> String {
+        "calls".into()
+    }
+    fn params(&self) -> serde_json::Value {
+        json!({"versions_owner_callerA_callerB_stranger": self.minors, "depth": self.depth, "caller_serials": [0, 1]})
+    }
+    fn prelude(&self) -> Vec<Action> {
+        let mut v: Vec<Action> = self.minors.iter().map(|m| connect(*m)).collect();
+        v.push(send(0, create_object(1, obj_uuid(1))));
+        v.push(send(0, create_service(2, sym::cid(IdKind::Obj, 0), svc_uuid(1), 1)));
+        v
+    }
+    fn max_depth(&self) -> usize {
+        self.depth
+    }
+    fn actions(&self, m: &Model, stale: &Stale, _depth: usize) -> Vec<(Action, bool)> {
+        let mut out = Vec::new();
+        let mut svcs: Vec<U> = m.svcs.keys().copied().collect();
+        if let Some(s) = stale.svc {
+            svcs.push(s);
+        }
+        for c in [1usize, 2] {
+            if !m.is_live(c) {
+                continue;
+            }
+            let minor = m.minor(c);
+            for s in &svcs {
+                // keep the space finite: at most 3 call entries (pending or aborted-but-unanswered)
+                if m.calls.len() >= 3 && m.svcs.contains_key(s) {
+                    continue;
+                }
+                for serial in [0u32, 1] {
+                    out.push((send(c, call_function(serial, *s, 5, payload_for(minor, serial as u8))), true));
+                    if c == 1 {
+                        // CallFunction2 (closes the caller below 1.19)
+                        out.push((send(c, call_function2(serial, *s, 5, if serial == 0 { None } else { Some(3) }, payload_for(minor, serial as u8))), true));
+                    }
+                }
+            }
+            for serial in [0u32, 1] {
+                out.push((send(c, abort_function_call(serial)), true));
+            }
+        }
+        // replies
+        let mut ts: Vec<u32> = m.calls.keys().copied().collect();
+        if let Some(t) = stale.bserial {
+            ts.push(t);
+        }
+        ts.push(sym::BSERIAL_BOGUS);
+        for t in &ts {
+            if m.is_live(0) {
+                out.push((send(0, call_function_reply(*t, 0, payload_for(m.minor(0), 77))), true));
+                for res in [1u8, 2, 3, 4, 5] {
+                    out.push((send(0, call_function_reply(*t, res, payload_for(m.minor(0), 78))), false));
+                }
+            }
+            for c in [1usize, 3] {
+                if m.is_live(c) {
+                    out.push((send(c, call_function_reply(*t, 0, payload_for(m.minor(c), 79))), false));
+                }
+            }
+        }
+        if m.is_live(0) {
+            for s in m.svcs.keys() {
+                out.push((send(0, destroy_service(30, *s)), true));
+            }
+            for o in m.objs.values() {
+                out.push((send(0, destroy_object(31, o.cookie)), true));
+                if o.svcs.is_empty() {
+                    out.push((send(0, create_service(32, o.cookie, svc_uuid(1), 1)), true));
+                }
+            }
+        }
+        for c in 0..3 {
+            for a in disconnects(m, c, false) {
+                out.push((a, true));
+            }
+        }
+        out
+    }
+}
+
+// ---------------------------------------------------------------------------------------------
+// C05 — channels (broker half)
+
+pub struct ChannelsScenario {
+    pub minors: Vec<u32>,
+    pub caps: Vec<u32>,
+    pub grants: Vec<u32>,
+    pub max_channels: usize,
+    pub credit_limit: u32,
+    pub depth: usize,
+}
+
+impl Scenario for ChannelsScenario {
+    fn name(&self) -> String {
+        "channels".into()
+    }
+    fn params(&self) -> serde_json::Value {
+        json!({"versions": self.minors, "capacities": self.caps, "grants": self.grants, "max_channels": self.max_channels, "credit_limit": self.credit_limit, "depth": self.depth})
+    }
+    fn prelude(&self) -> Vec<Action> {
+        self.minors.iter().map(|m| connect(*m)).collect()
+    }
+    fn max_depth(&self) -> usize {
+        self.depth
+    }
+    fn actions(&self, m: &Model, stale: &Stale, _depth: usize) -> Vec<(Action, bool)> {
+        let mut out = Vec::new();
+        let chans = chan_cookies(m, stale);
+        for c in m.live_conns() {
+            let minor = m.minor(c);
+            // creators: only the first two connections create, everybody may claim / close / abuse
+            if m.chans.len() < self.max_channels && c < 2 {
+                out.push((send(c, create_channel_sender(1)), true));
+                for cap in &self.caps {
+                    out.push((send(c, create_channel_receiver(2, *cap)), true));
+                }
+            }
+            for ch in &chans {
+                let live = m.chans.get(ch);
+                out.push((send(c, claim_sender(3, *ch)), true));
+                // claiming a receiver with every capacity only where it can succeed
+                let caps: &[u32] = if live.map(|x| x.receiver == MEnd::Unclaimed).unwrap_or(false) { &self.caps } else { &self.caps[..1] };
+                for cap in caps {
+                    out.push((send(c, claim_receiver(4, *ch, *cap)), true));
+                }
+                out.push((send(c, close_channel_end(5, *ch, true)), true));
+                out.push((send(c, close_channel_end(6, *ch, false)), true));
+                out.push((send(c, send_item(*ch, payload_for(minor, 1))), true));
+                let credit = match live.map(|x| x.receiver) {
+                    Some(MEnd::Claimed(_, n)) => n,
+                    _ => 0,
+                };
+                for g in &self.grants {
+                    if credit.saturating_add(*g) <= self.credit_limit || *g == 0 || self.credit_limit == u32::MAX {
+                        out.push((send(c, add_channel_capacity(*ch, *g)), true));
+                    }
+                }
+            }
+            for a in disconnects(m, c, false) {
+                out.push((a, true));
+            }
+        }
+        out
+    }
+}
+
+// ---------------------------------------------------------------------------------------------
+// C10 — bus listeners
+
+pub fn all_filters() -> Vec<crate::model::Filter> {
+    use crate::model::Filter;
+    let mut v = vec![
+        Filter { d: 0, obj: None, svc: None },
+        Filter { d: 1, obj: Some(obj_uuid(1)), svc: None },
+        Filter { d: 1, obj: Some(obj_uuid(2)), svc: None },
+        Filter { d: 2, obj: None, svc: None },
+    ];
+    for o in [1u8, 2] {
+        v.push(Filter { d: 3, obj: Some(obj_uuid(o)), svc: None });
+    }
+    for s in [1u8, 2] {
+        v.push(Filter { d: 4, obj: None, svc: Some(svc_uuid(s)) });
+    }
+    for o in [1u8, 2] {
+        for s in [1u8, 2] {
+            v.push(Filter { d: 5, obj: Some(obj_uuid(o)), svc: Some(svc_uuid(s)) });
+        }
+    }
+    v
+}
+
+/// Prepared bus states: list of (object uuid index, service uuid indices).
+pub fn bus_states() -> Vec<Vec<(u8, Vec<u8>)>> {
+    vec![
+        vec![],
+        vec![(1, vec![])],
+        vec![(1, vec![1])],
+        vec![(1, vec![1, 2])],
+        vec![(1, vec![1]), (2, vec![1])],
+        vec![(1, vec![2]), (2, vec![])],
+        vec![(2, vec![1, 2])],
+        vec![(1, vec![1, 2]), (2, vec![1, 2])],
+    ]
+}
+
+/// E-A: all filter histories on one listener (a second, idle listener on the same connection
+/// optionally), then start with each scope against a prepared bus state.
+pub struct ListenerCurrentScenario {
+    pub bus_state: usize,
+    pub two_listeners: bool,
+    pub max_filters_depth: usize,
+}
+
+impl Scenario for ListenerCurrentScenario {
+    fn name(&self) -> String {
+        "listener-current".into()
+    }
+    fn params(&self) -> serde_json::Value {
+        json!({"bus_state": self.bus_state, "two_listeners": self.two_listeners, "depth": self.max_filters_depth})
+    }
+    fn prelude(&self) -> Vec<Action> {
+        // c0 = listener owner, c1 = producer, c2 = stranger
+        let mut v = vec![connect(20), connect(20), connect(14)];
+        let mut obj_idx = 0u32;
+        for (o, svcs) in &bus_states()[self.bus_state] {
+            v.push(send(1, create_object(1, obj_uuid(*o))));
+            for s in svcs {
+                v.push(send(1, create_service(2, sym::cid(IdKind::Obj, obj_idx), svc_uuid(*s), 1)));
+            }
+            obj_idx += 1;
+        }
+        v.push(send(0, create_bus_listener(3)));
+        if self.two_listeners {
+            v.push(send(0, create_bus_listener(4)));
+            v.push(send(0, add_filter(sym::cid(IdKind::Lis, 1), &all_filters()[3])));
+            v.push(send(0, start_listener(5, sym::cid(IdKind::Lis, 1), 2)));
+        }
+        v
+    }
+    fn max_depth(&self) -> usize {
+        self.max_filters_depth + 3
+    }
+    fn actions(&self, m: &Model, _stale: &Stale, depth: usize) -> Vec<(Action, bool)> {
+        let mut out = Vec::new();
+        let l = sym::cid(IdKind::Lis, 0);
+        let Some(lis) = m.listeners.get(&l) else {
+            return out;
+        };
+        if !m.is_live(0) {
+            return out;
+        }
+        if lis.scope.is_none() {
+            if depth < self.max_filters_depth {
+                for f in all_filters() {
+                    out.push((send(0, add_filter(l, &f)), true));
+                    if lis.filters.contains(&f) {
+                        out.push((send(0, remove_filter(l, &f)), true));
+                    } else if f.d == 5 || f.d == 0 {
+                        // removing an absent filter: must not disturb the cached flags
+                        out.push((send(0, remove_filter(l, &f)), false));
+                    }
+                }
+                if !lis.filters.is_empty() {
+                    out.push((send(0, clear_filters(l)), true));
+                }
+            }
+            for scope in 0..3u8 {
+                out.push((send(0, start_listener(6, l, scope)), true));
+            }
+            // foreign access to the listener
+            out.push((send(2, start_listener(7, l, 2)), false));
+            out.push((send(2, add_filter(l, &all_filters()[0])), false));
+            out.push((send(2, destroy_bus_listener(8, l)), false));
+            out.push((send(0, stop_listener(9, l)), false));
+        } else {
+            // started: stop (then it can be started again), start again, destroy
+            out.push((send(0, stop_listener(9, l)), true));
+            out.push((send(0, start_listener(6, l, 2)), false));
+            out.push((send(0, destroy_bus_listener(10, l)), false));
+            out.push((send(2, stop_listener(11, l)), false));
+        }
+        out
+    }
+}
+
+/// E-B: new events with several listeners on two connections.
+pub struct ListenerNewScenario {
+    pub filters: Vec<usize>,
+    pub depth: usize,
+}
+
+impl Scenario for ListenerNewScenario {
+    fn name(&self) -> String {
+        "listener-new".into()
+    }
+    fn params(&self) -> serde_json::Value {
+        json!({"filter_indices": self.filters, "depth": self.depth})
+    }
+    fn prelude(&self) -> Vec<Action> {
+        // c0: two listeners, c1: one listener, c2: producer, c3: second producer
+        vec![
+            connect(20),
+            connect(14),
+            connect(20),
+            connect(17),
+            send(0, create_bus_listener(1)),
+            send(0, create_bus_listener(2)),
+            send(1, create_bus_listener(3)),
+        ]
+    }
+    fn max_depth(&self) -> usize {
+        self.depth
+    }
+    fn actions(&self, m: &Model, stale: &Stale, _depth: usize) -> Vec<(Action, bool)> {
+        let mut out = Vec::new();
+        let fs = all_filters();
+        for (li, owner) in [(0u32, 0usize), (1, 0), (2, 1)] {
+            let l = sym::cid(IdKind::Lis, li);
+            let Some(lis) = m.listeners.get(&l) else { continue };
+            if !m.is_live(owner) {
+                continue;
+            }
+            for fi in &self.filters {
+                let f = &fs[*fi];
+                if !lis.filters.contains(f) {
+                    out.push((send(owner, add_filter(l, f)), true));
+                } else {
+                    out.push((send(owner, remove_filter(l, f)), true));
+                }
+            }
+            if lis.scope.is_none() {
+                out.push((send(owner, start_listener(4, l, 1)), true));
+                if li == 1 {
+                    out.push((send(owner, start_listener(4, l, 2)), true));
+                    out.push((send(owner, start_listener(4, l, 0)), true));
+                }
+            } else {
+                out.push((send(owner, stop_listener(5, l)), true));
+            }
+            if li == 1 {
+                out.push((send(owner, destroy_bus_listener(6, l)), true));
+            }
+        }
+        // producers
+        for p in [2usize, 3] {
+            if !m.is_live(p) {
+                continue;
+            }
+            for o in [1u8, 2] {
+                if !m.objs.contains_key(&obj_uuid(o)) {
+                    out.push((send(p, create_object(7, obj_uuid(o))), true));
+                }
+            }
+            for obj in m.objs.values() {
+                if obj.owner != p {
+                    continue;
+                }
+                out.push((send(p, destroy_object(8, obj.cookie)), true));
+                for s in [1u8, 2] {
+                    let exists = m.svcs.values().any(|sv| sv.obj_cookie == obj.cookie && sv.uuid == svc_uuid(s));
+                    if !exists && (s == 1 || p == 2) {
+                        out.push((send(p, create_service(9, obj.cookie, svc_uuid(s), 1)), true));
+                    }
+                }
+            }
+            for (sc, sv) in &m.svcs {
+                if m.svc_owner(sc) == Some(p) {
+                    let _ = sv;
+                    out.push((send(p, destroy_service(10, *sc)), true));
+                }
+            }
+            out.push((Action::DropTransport(p), true));
+            if p == 2 {
+                out.push((Action::Kick(p), true));
+            }
+        }
+        let _ = stale;
+        out
+    }
 }
